@@ -317,12 +317,48 @@ impl<'a> TyVisitorRef for V<'a> {
                     let borrowed: T = items.iter().sum();
                     expect_same!(dims, lay, base, owned, 0.0, "sum", "Sum<T>", ctx());
                     expect_same!(dims, lay, base, borrowed, 0.0, "sum", "Sum<&T>", ctx());
+                    // iterators that promise nothing about their length (size_hint lower bound 0) and
+                    // iterators that over-promise nothing either: filter, flat_map, from_fn, take_while, chain
+                    let f1: T = items.iter().cloned().filter(|_| true).sum();
+                    let f2: T = items.iter().filter(|_| true).sum();
+                    let f3: T = items.iter().flat_map(|x| std::iter::once(x.clone())).sum();
+                    let mut k = 0;
+                    let f4: T = std::iter::from_fn(|| {
+                        k += 1;
+                        items.get(k - 1).cloned()
+                    })
+                    .sum();
+                    let f5: T = items.iter().take_while(|_| true).sum();
+                    let (l, r) = items.split_at(n / 2);
+                    let f6: T = l.iter().chain(r.iter()).sum();
+                    expect_same!(dims, lay, base, f1, 0.0, "sum", "Sum<T> over filter", ctx());
+                    expect_same!(dims, lay, base, f2, 0.0, "sum", "Sum<&T> over filter", ctx());
+                    expect_same!(dims, lay, base, f3, 0.0, "sum", "Sum<T> over flat_map", ctx());
+                    expect_same!(dims, lay, base, f4, 0.0, "sum", "Sum<T> over from_fn", ctx());
+                    expect_same!(dims, lay, base, f5, 0.0, "sum", "Sum<&T> over take_while", ctx());
+                    expect_same!(dims, lay, base, f6, 0.0, "sum", "Sum<&T> over chain", ctx());
                 } else {
                     let base = items.iter().cloned().fold(T::one(), |acc, x| acc * x);
                     let owned: T = items.iter().cloned().product();
                     let borrowed: T = items.iter().product();
                     expect_same!(dims, lay, base, owned, 0.0, "product", "Product<T>", ctx());
                     expect_same!(dims, lay, base, borrowed, 0.0, "product", "Product<&T>", ctx());
+                    let f1: T = items.iter().cloned().filter(|_| true).product();
+                    let f2: T = items.iter().filter(|_| true).product();
+                    let f3: T = items.iter().flat_map(|x| std::iter::once(x.clone())).product();
+                    let mut k = 0;
+                    let f4: T = std::iter::from_fn(|| {
+                        k += 1;
+                        items.get(k - 1).cloned()
+                    })
+                    .product();
+                    let (l, r) = items.split_at(n / 2);
+                    let f6: T = l.iter().chain(r.iter()).product();
+                    expect_same!(dims, lay, base, f1, 0.0, "product", "Product<T> over filter", ctx());
+                    expect_same!(dims, lay, base, f2, 0.0, "product", "Product<&T> over filter", ctx());
+                    expect_same!(dims, lay, base, f3, 0.0, "product", "Product<T> over flat_map", ctx());
+                    expect_same!(dims, lay, base, f4, 0.0, "product", "Product<T> over from_fn", ctx());
+                    expect_same!(dims, lay, base, f6, 0.0, "product", "Product<&T> over chain", ctx());
                 }
                 st.class(&format!("iterator length {n}"));
                 nontrivial = rich && n >= 2;
@@ -474,7 +510,7 @@ impl Property for C08 {
         }
     }
     fn rule() -> String {
-        "generated: (type from the 58-type registry, one of 16 form families, operands with arbitrary parts and presence patterns, scalar incl. 0 and +-1, primitive integer incl. extreme i64, iterator length 0..9). Families: a op b vs &a op &b, a op &b, &a op b, a op= b for + - * / (bit-for-bit, and the base form against the reference algebra); -a vs -&a vs 0-a; a op s and a op= s vs a op D::from(s) (additive exact, multiplicative to 16 u per part; one multiplicative-scalar case in three uses a wide-magnitude scalar +-10^e, |e| <= 290 (f32: 30), where every part of the result must be the correctly rounded part*s resp. part/s and the lifted form is compared while 1/s^(order+1) is representable); inv vs recip; Sum / Product over owned and borrowed iterators (incl. empty) vs folds; default mul_add vs a*b+c; From<F> and the 14 FromPrimitive constructors vs the lifted float (constant with zero parts, None exactly when the float conversion is None); Zero, One and the 16 FloatConst constants have the float constant's bits and zero parts; from_inner lifts an arbitrary value of the inner number type (nested types: a dual number with its own parts) to a constant whose real block is that value and whose other parts are zero. Non-trivial: operands with >= 2 non-zero derivative parts, scalar not in {0,+-1}, iterator length >= 2.".into()
+        "generated: (type from the 58-type registry, one of 16 form families, operands with arbitrary parts and presence patterns, scalar incl. 0 and +-1, primitive integer incl. extreme i64, iterator length 0..9). Families: a op b vs &a op &b, a op &b, &a op b, a op= b for + - * / (bit-for-bit, and the base form against the reference algebra); -a vs -&a vs 0-a; a op s and a op= s vs a op D::from(s) (additive exact, multiplicative to 16 u per part; one multiplicative-scalar case in three uses a wide-magnitude scalar +-10^e, |e| <= 290 (f32: 30), where every part of the result must be the correctly rounded part*s resp. part/s and the lifted form is compared while 1/s^(order+1) is representable); inv vs recip; Sum / Product over owned and borrowed iterators (incl. empty; slices, filter, flat_map, from_fn, take_while, chain - i.e. also iterators whose size_hint promises nothing) vs folds; default mul_add vs a*b+c; From<F> and the 14 FromPrimitive constructors vs the lifted float (constant with zero parts, None exactly when the float conversion is None); Zero, One and the 16 FloatConst constants have the float constant's bits and zero parts; from_inner lifts an arbitrary value of the inner number type (nested types: a dual number with its own parts) to a constant whose real block is that value and whose other parts are zero. Non-trivial: operands with >= 2 non-zero derivative parts, scalar not in {0,+-1}, iterator length >= 2.".into()
     }
     fn assumptions() -> Vec<String> {
         vec!["numerical equality (== on every part, NaN = NaN); presence patterns of the results are not compared (that is C07)".into()]
